@@ -155,7 +155,9 @@ mut("c19_occupied_counts_every_insert", TT, "                if existing_data.da
 mut("c19_old_search_entry_kept_if_deeper", TR, "        if new.age != self.age {\n            return true;\n        }", "        if new.age != self.age && new.depth + 3 >= self.depth {\n            return true;\n        }", ["C19"])
 
 SEE = "src/engine/see.rs"
-mut("c20_rook_value", SEE, "        Rook => 500,", "        Rook => 300,", ["C20"])
+# a different value table is not a violation ("an independent swap-list computation using the same piece
+# values"): since the reference reads the values off the evaluator this is a control
+mut("c20_rook_value", SEE, "        Rook => 500,", "        Rook => 300,", [], ["C20"])
 # equivalent at threshold 0 (parity of the piece values: once a pawn has recaptured the verdict is decided)
 mut("c20_no_diagonal_xray_after_pawn", SEE, "        if attacker == PieceKind::Pawn\n            || attacker == PieceKind::Bishop", "        if attacker == PieceKind::Bishop", [], ["C20"])
 # equivalent for the verdict: a king that captures into defence is recaptured (value 10000), which leaves the
